@@ -26,7 +26,8 @@ RULE = ("Host H (real Zeroconf: 1..2 registered services, an active browser, a s
         "(a service announced, withdrawn by a goodbye alone or mixed with new/refreshed/flush records in one datagram, and "
         "announced again) is reported Added both times, and canary 4 (the browser still sends its 75 % refresh query for a pointer "
         "learned after the stream) shows the query scheduler alive; canary 5: a query answered earlier and repeated byte for byte "
-        "right after an undecodable datagram is answered again "
+        "right after an undecodable datagram is answered again; canary 6: the real announcement still reaches the browser after "
+        "a copy with one bit flipped in its type label arrived first (known finding F28) "
         "within 1.5 s. Distinct = (generator, source class, delivery, handler reached, outcome) classes.")
 ASSUMPTIONS = ["canary names are unique per run so that earlier fuzz traffic cannot have pre-empted them"]
 
@@ -38,7 +39,7 @@ def floors(tier):
     q = tier == "quick"
     return {"c15.no_escape": 80000 if q else 10000000, "c15.oversize_ignored": 3000 if q else 400000, "c15.canary_query": 1000 if q else 100000, "c15.canary_browse": 1000 if q else 100000,
             "c15.canary_reannounce": 1000 if q else 100000, "c15.canary_refresh": 1000 if q else 100000,
-            "c15.canary_repeat_after_junk": 1000 if q else 100000}
+            "c15.canary_repeat_after_junk": 1000 if q else 100000, "c15.canary_preempted": 1000 if q else 100000}
 
 
 def plan(tier, seed):
@@ -334,6 +335,28 @@ def run_stream(res: Result, seed: int) -> None:
             if not srv_alive:
                 viol("c15.canary_query", "repeated_announcement_after_junk_ignored", "an announcement repeated byte for byte 100 s later, right after a 9-byte "
                      "undecodable datagram, did not refresh the records: the SRV (TTL 120) is gone 130 s after the first copy")
+            # ---- canary 6: a bit-flipped copy of a valid announcement arrives BEFORE the real one (0x20 flipped in the type label of
+            #      the pointer's owner name: '_ipp' -> '_Ipp'); the real announcement, sent afterwards, must still reach the browser
+            res.mon("c15.canary_preempted")
+            zname = "flipped-%d.%s" % (seed & 0xFFFF, T2)
+            zrecs = [(("PTR", T2, (zname,)), 4500, False), (("SRV", zname, (0, 0, 9, "flipped-host.local.")), 120, True),
+                     (("A", "flipped-host.local.", (b"\x0a\x00\x00\x0c",)), 120, True)]
+            good = R.build_response(zrecs, id_=0)
+            lab = b"\x04_" + T2.split(".")[0][1:].encode()
+            pos = good.find(lab)
+            bad = bytearray(good)
+            bad[pos + 2] ^= 0x20
+            sim.net.inject_now(host, bytes(bad), ("10.0.0.205", 5353))
+            await sim.sleep_ms(1500)
+            t_good = sim.now_ms()
+            sim.net.inject_now(host, good, ("10.0.0.205", 5353))
+            await sim.sleep_ms(500)
+            if not [x for x in added if x[1].lower() == zname.lower()]:
+                viol("c15.canary_browse", "announcement_preempted_by_case_variant", "a copy of an announcement with one bit flipped in the type label of the pointer's "
+                     "owner name ('%s') arrived 1.5 s before the real announcement of %s: the browser never reported the service (cached pointer owners: %r)" % (
+                         bytes(bad[pos + 1:pos + 1 + lab[0]]).decode("ascii", "replace"), zname,
+                         sorted({r.name for r in zc.cache.entries_with_name(T2) if getattr(r, "alias", "").lower() == zname.lower()})),
+                     mechanism="type_label_case")
             # ---- canary 4: the browser's query scheduler is still running: the pointer re-announced by canary 3 (TTL raised to the
             #      1125 s floor) must be asked for again at about 75 % of that TTL
             res.mon("c15.canary_refresh")
